@@ -374,6 +374,13 @@ def shards(ctx):
             out.append({"sub": "reduce", "cfg": cfg, "field": field})
         out.append({"sub": "bigint", "cfg": cfg})
         out.append({"sub": "constants", "cfg": cfg})
+    # an unoptimised build: nothing is kept in registers across a store, so code that is only right because the optimiser happened to
+    # forward a load (an operand re-read after an aliasing store) shows; one quarter of the binary-operation rows and the unary rows
+    build.build("o0")
+    for field in FIELDS:
+        for op in BINOPS:
+            out.append({"sub": "binop", "cfg": "o0", "field": field, "op": op, "part": 0, "parts": 4})
+        out.append({"sub": "unop", "cfg": "o0", "field": field})
     for part in range(16):
         out.append({"sub": "w8", "part": part, "parts": 16})
     return out
